@@ -146,15 +146,16 @@ theorem leaveLoop_eq (p : Node → Bool) (back : Bool) (st : List Item) :
             ids]
 
 theorem walkLeave_eq (p : Node → Bool) (back self_ : Bool) (t : Node) :
-    walkLeave p back true self_ t = ids ((postL back t.kids).filter p) ++ (if self_ then [t.id] else []) := by
+    walkLeave p back true self_ t = ids ((postL back t.kids).filter p) ++ (if self_ && p t then [t.id] else []) := by
   simp only [walkLeave, cond_true, leaveLoop_eq, flatMap_itemPost_enter, flatMap_orient_post]
 
-theorem walkLeave_self (p : Node → Bool) (back : Bool) (t : Node) (h : p t = true) :
+theorem walkLeave_self (p : Node → Bool) (back : Bool) (t : Node) :
     walkLeave p back true true t = ids ((post back t).filter p) := by
-  rw [walkLeave_eq, post_eq]; simp [h, ids]
+  rw [walkLeave_eq, post_eq]
+  cases h : p t <;> simp [h, ids]
 
 theorem walkLeave_norec_eq (p : Node → Bool) (back self_ : Bool) (t : Node) :
-    walkLeave p back false self_ t = ids ((orient back t.kids).filter p) ++ (if self_ then [t.id] else []) := by
+    walkLeave p back false self_ t = ids ((orient back t.kids).filter p) ++ (if self_ && p t then [t.id] else []) := by
   simp only [walkLeave, cond_false, leaveLoop_eq, flatMap_itemPost_leave]
 
 /-! ## 8. both -/
@@ -210,18 +211,19 @@ theorem walkBoth_eq (p : Node → Bool) (back self_ : Bool) (t : Node) :
     walkBoth p back true self_ t
       = (if self_ && p t then [(t.id, false)] else [])
         ++ ids2 ((brkL back t.kids).filter (fun x => p x.1))
-        ++ (if self_ then [(t.id, true)] else []) := by
+        ++ (if self_ && p t then [(t.id, true)] else []) := by
   simp only [walkBoth, bothLoop_rec, flatMap_itemBrk_enter, flatMap_orient_brk]
 
-theorem walkBoth_self (p : Node → Bool) (back : Bool) (t : Node) (h : p t = true) :
+theorem walkBoth_self (p : Node → Bool) (back : Bool) (t : Node) :
     walkBoth p back true true t = ids2 ((brk back t).filter (fun x => p x.1)) := by
-  rw [walkBoth_eq, brk_eq]; simp [h, ids2]
+  rw [walkBoth_eq, brk_eq]
+  cases h : p t <;> simp [h, ids2]
 
 theorem walkBoth_norec_eq (p : Node → Bool) (back self_ : Bool) (t : Node) :
     walkBoth p back false self_ t
       = (if self_ && p t then [(t.id, false)] else [])
         ++ ((orient back t.kids).flatMap (fun n => if p n then [(n.id, false), (n.id, true)] else []))
-        ++ (if self_ then [(t.id, true)] else []) := by
+        ++ (if self_ && p t then [(t.id, true)] else []) := by
   have h := bothLoop_norec p back (orient back t.kids) []
   simp only [List.append_nil] at h
   simp only [walkBoth, h]
@@ -347,7 +349,7 @@ theorem walk_nodup (back : Bool) (t : Node) (h : (ids (pre false t)).Nodup) :
     ∧ (walkEnter (fun _ => true) back true true t).Perm (ids (pre false t))
     ∧ (walkLeave (fun _ => true) back true true t).Nodup
     ∧ (walkLeave (fun _ => true) back true true t).Perm (ids (pre false t)) := by
-  rw [walkEnter_self, walkLeave_self _ _ _ rfl, filter_const_true, filter_const_true]
+  rw [walkEnter_self, walkLeave_self, filter_const_true, filter_const_true]
   have h1 : (ids (pre back t)).Perm (ids (pre false t)) := (pre_perm back t).map _
   have h2 : (ids (post back t)).Perm (ids (pre false t)) := (post_perm back t).map _
   exact ⟨h1.nodup_iff.mpr h, h1, h2.nodup_iff.mpr h, h2⟩
